@@ -8,6 +8,7 @@ bursts, all jumps in one interval, gaps around eps, long tail gap), everything e
 states actually used are recorded where they enter the path assembly.
 Oracle: executable reference built from the recorded counts, times, sizes and normals only.
 """
+import copy
 import hashlib
 
 import numpy as np
@@ -34,10 +35,10 @@ ASSUMPTIONS = ["grid states (C13) and sampler outputs (C02) are taken as given: 
 TIERS = {
     "quick": {"worlds": 500, "wall": 500, "shrink_budget": 60,
               "required_probes": ["c15.path_checked", "c15.zero_jump_path", "c15.multi_date", "c15.maxstep_mode",
-                                  "c15.coupled_path", "c15.gap_gt_eps", "c15.nd_path_checked"]},
+                                  "c15.coupled_path", "c15.gap_gt_eps", "c15.nd_path_checked", "c15.step_cap_changes_between_levels"]},
     "thorough": {"worlds": 200000, "wall": 3300, "shrink_budget": 150,
                  "required_probes": ["c15.path_checked", "c15.zero_jump_path", "c15.multi_date", "c15.maxstep_mode",
-                                     "c15.coupled_path", "c15.gap_gt_eps", "c15.tail_gap_gt_eps", "c15.burst"]},
+                                     "c15.coupled_path", "c15.gap_gt_eps", "c15.tail_gap_gt_eps", "c15.burst", "c15.step_cap_changes_between_levels"]},
 }
 
 _installed = False
@@ -101,7 +102,8 @@ def generate(seed, tier="quick"):
         return {"world_seed": seed, "process": proc, "mode": mode, "maturity": T, "dates": 2, "npaths": npaths,
                 "counts": counts, "eps": T * r.choice([0.02, 0.1, 0.3, 0.5, 0.9, 1.5]) if mode == "maxstep" else None,
                 "time_style": [r.choice(["spread", "early", "late", "cluster"]) for _ in range(npaths)],
-                "level": 1 if proc["kind"] == "copula_coupling" else 0, "useed": r.randrange(10 ** 9)}
+                "level": r.choice([1, 1, 2, 3]) if proc["kind"] == "copula_coupling" else 0, "useed": r.randrange(10 ** 9),
+                "eps_decay": r.choice([1.0, 0.7, 0.5]), "reinit": r.random() < 0.5}
     kind = r.choice(["levy", "chain", "chain", "coupling", "coupling"])
     if kind == "levy":
         proc = {"kind": "levy", "model": r.choice(B.DIRECT_MODELS)}
@@ -139,8 +141,8 @@ def generate(seed, tier="quick"):
         eps = T * r.choice([0.003, 0.02, 0.1, 0.3, 0.5, 0.9, 1.0, 1.5])
     tstyle = [r.choice(["spread", "early", "late", "cluster"]) for _ in range(npaths)]
     return {"world_seed": seed, "process": proc, "mode": mode, "maturity": T, "dates": dates, "npaths": npaths,
-            "counts": counts, "eps": eps, "time_style": tstyle, "level": r.choice([1, 1, 2]) if kind == "coupling" else 0,
-            "useed": r.randrange(10 ** 9)}
+            "counts": counts, "eps": eps, "time_style": tstyle, "level": r.choice([1, 1, 2, 3]) if kind == "coupling" else 0,
+            "useed": r.randrange(10 ** 9), "eps_decay": r.choice([1.0, 0.7, 0.5]), "reinit": r.random() < 0.5}
 
 
 def shrink_candidates(sc):
@@ -269,6 +271,16 @@ def execute(wd, sc):
         phase.update(name="precompute", poisson_idx=0, precompute_paths=npaths)
         process.pre_computation(npaths, product)
         for lvl in range(sc["level"]):
+            # the engines' history: the level-l object is a deep copy of the level-(l-1) object, (re-)initialised and
+            # refined with the step cap of ITS level (the cap shrinks with h^BG from level to level)
+            if lvl > 0:
+                process = copy.deepcopy(process)
+                if eps is not None:
+                    eps = eps * sc.get("eps_decay", 1.0)
+                    if sc.get("eps_decay", 1.0) != 1.0:
+                        wd.probes["c15.step_cap_changes_between_levels"] += 1
+                if sc.get("reinit"):
+                    process.initialisation(product, max_step_epsilon=eps)
             phase.update(name="precompute", poisson_idx=0, precompute_paths=npaths)
             process.next_level(npaths, None, product, max_step_epsilon=eps)
         if kind == "coupling":
